@@ -488,7 +488,7 @@ func c06(c *ctx) {
 	for i := 0; i < nd; i++ {
 		f := flavours[i%len(flavours)]
 		e.run(c06case{transport: f.tr, br: f.br, enc: byte(i % 4), sid: uint32(1000 + i), unordered: i%2 == 0, off: offs[i%len(offs)],
-			domain: domains[i%len(domains)], method: []string{"shadowsocks", "openvpn"}[i%2], uid: byp, viaDisp: true}, idx)
+			domain: domains[i%len(domains)], method: []string{"shadowsocks", "openvpn", "MixedCaseSS"}[i%3], uid: byp, viaDisp: true}, idx)
 		idx++
 	}
 	// composeReply, byte for byte, and the client's offsets on it
